@@ -11,17 +11,30 @@ from_array on a non-canonical CSR):
     model's `setstate` and the original; 1-3 cycles;
   * binary databases up to 2^14 bits: savetxt with and without names into plain/gz/bz2 files: file content equals the
     model's `savetxt` (or the modelled exception) and, parsed back, one line per row in row order, of length bits, with
-    '1' exactly at the row's columns, followed by " " + name."""
+    '1' exactly at the row's columns, followed by " " + name.
+
+Coverage extension (specifications and builder in props/c08_cov.py; audit table in work/coverage_C08.md): a second stream of
+databases - results of fold / get_subset / as_type / concat / + / copy / deepcopy / reload-then-add, property columns carried by
+the fingerprints, NumPy-integer levels, names with control characters / 300 characters / numpy.str_, names handed over as
+tuple / ndarray / generator, more integer and float dtypes, colliding key families, bits that are not powers of two, 8-40 rows,
+negative / non-finite stored floats - and, per database: every save is followed by a re-observation of the saved database;
+`==` and the container types are checked on both formats; file-name classes ('x.fpz.bak', 'x.FPZ', 'x.fpz.fps.bz2', ...),
+keyword calls, default file names, paths that are written again and again; a chain alternating the two formats; a pickle state
+without 'props'; __setstate__ on a used object; pickle protocols 0-5; deepcopy; text export with default / positional
+with_names, into further extensions, above 2^14 bits, and of the reloaded databases."""
 import bz2
 import gzip
 import json
+import lzma
 import os
 import warnings
 import core
 import dbio_gen as G
+from props import c08_cov as C
 
 IMPORTS = ['From E3FP Require Import Base.Prelude Model.DbIO.']
-TEXT_EXT = ['.txt', '.txt.gz', '.txt.bz2', '.bits']
+TEXT_EXT = ['.txt', '.txt.gz', '.txt.bz2', '.bits', '', '.gz', '.bz2', '.txt.xz']
+
 
 
 def _read_text(fn):
@@ -29,7 +42,15 @@ def _read_text(fn):
         return gzip.open(fn, 'rb').read().decode('utf-8')
     if fn.endswith('.bz2'):
         return bz2.open(fn, 'rb').read().decode('utf-8')
+    if fn.endswith('.xz'):
+        return lzma.open(fn, 'rb').read().decode('utf-8')
     return open(fn, 'rb').read().decode('utf-8')
+
+
+def text_lit(content):
+    """Gallina literal of a text file: the lines as plain string literals joined by the model's `nl` (dbio_gen.slit prints a
+    string that contains any control character, hence every multi-line text, as a list of byte values - five times longer)."""
+    return '(String.concat nl %s)' % core.listlit([G.slit(p) for p in content.split('\n')])
 
 
 def _err_tag(e):
@@ -49,12 +70,33 @@ class Runner(object):
         self.dist = {'kind': {}, 'how': {}, 'bits': {}, 'names_mode': {}, 'level_none': 0, 'level_negative': 0, 'dbname_none': 0,
                      'with_none_name': 0, 'with_duplicate_name': 0, 'props_columns': {}, 'prop_dtypes': {}, 'tricky_prop_keys': 0,
                      'fpz_cycles': 0, 'fps_cycles': 0, 'savez_without_extension': 0, 'text_exports': 0, 'text_by_ext': {},
-                     'text_expected_errors': 0, 'noncanonical_csr': 0, 'int64_indices': 0}
+                     'text_expected_errors': 0, 'noncanonical_csr': 0, 'int64_indices': 0,
+                     # coverage extension (c08_cov.py)
+                     'extended_specs': 0, 'derived_op': {}, 'level_numpy_int': {}, 'names_container': {}, 'names_numpy_str': 0,
+                     'rows': {}, 'all_rows_empty': 0, 'control_char_names': 0, 'long_names': 0, 'prop_input': {},
+                     'float_special_data': 0, 'mixed_format_chain_steps': 0, 'savez_name_class': {}, 'save_name_class': {},
+                     'reused_path_saves': 0, 'call_form': {}, 'operand_rechecks': 0, 'eq_checks': 0, 'legacy_state_without_props': 0,
+                     'setstate_on_used_object': 0, 'pickle_protocol': {}, 'deepcopy': 0, 'default_filename': 0,
+                     'text_call_form': {}, 'text_of_reloaded': 0, 'text_large_direct_only': 0, 'text_over_2^14_bits': 0,
+                     'second_load_of_same_file': 0, 'direct_checks': 0}
         self.nfile = 0
+        self.ndirect = 0
+        self.reuse = {}
+        self.force_reuse = False     # replay: always write to the paths that earlier databases have written
+        self.prev_db = None
+        self.subdir = os.path.join(ctx.workdir, 'sub dir é')
+        os.makedirs(self.subdir, exist_ok=True)
 
-    def path(self, stem):
+    def path(self, stem, sub=False):
         self.nfile += 1
-        return os.path.join(self.ctx.workdir, 'f%05d_%s' % (self.nfile, stem))
+        return os.path.join(self.subdir if sub else self.ctx.workdir, 'f%05d_%s' % (self.nfile, stem))
+
+    def reuse_path(self, what, ext):
+        """One fixed path per format, written again and again by different databases (overwrite, no stale content, no caching)."""
+        if what not in self.reuse:
+            self.reuse[what] = os.path.join(self.ctx.workdir, 'reused_%s' % what.replace('.', '_')) + ext
+        self.dist['reused_path_saves'] += 1
+        return self.reuse[what]
 
     def add(self, key, expr, payload, model_out):
         self.cases.append((key, expr))
@@ -69,122 +111,405 @@ class Runner(object):
         d = self.dist[field]
         d[str(k)] = d.get(str(k), 0) + 1
 
-    # ------------------------------------------------------------------ one database
-    def one_db(self, tag, spec, cycles, text):
+    def direct(self, n=1):
+        self.ndirect += n
+        self.dist['direct_checks'] += n
+
+    def unchanged(self, what, obj, obefore, pl, key):
+        """Saving must not modify the database that is saved."""
+        self.dist['operand_rechecks'] += 1
+        self.direct()
+        try:
+            d = G.diff_fields(obefore, G.db_obs(obj))
+        except Exception as e:
+            d = ['unobservable: %r' % (e,)]
+        if d:
+            self.fail('%s modified the database it saved (fields %s)' % (what, d), pl, key)
+        return not d
+
+    def same_shape(self, what, db, nxt, pl, key):
+        """Container types of the reloaded database (values are compared through the observations)."""
+        self.direct()
+        bad = [a for a in ('fp_names', 'fp_names_to_indices', 'props') if type(getattr(nxt, a, None)) is not type(getattr(db, a))]
+        if bad:
+            self.fail('%s: reloaded database holds %s' % (what, ', '.join('%s as %s' % (a, type(getattr(nxt, a, None)).__name__) for a in bad)), pl, key)
+
+    def check_eq(self, what, db, nxt, o0, spec, pl, key):
+        # scipy subtracts non-canonical CSR operands with O(bits) scratch memory: MemoryError at 2^32 columns;
+        # a database holding NaN is not == itself (NaN - NaN is stored), so == says nothing there
+        if spec['how'] == 'noncanon' and o0['bits'] > 2 ** 16:
+            return
+        try:
+            if not (db == db):
+                return
+            self.dist['eq_checks'] += 1
+            self.direct()
+            if not (db == nxt and nxt == db):
+                self.fail('%s: reloaded database is not == the original' % what, pl, key)
+        except Exception as e:
+            self.fail('%s: == raised %r' % (what, e), pl, key)
+
+    def load_twice(self, what, fn, nxt, onxt, pl, key):
+        """A second load of the same file: an equal database that shares nothing with the first one."""
+        import numpy as np
         from e3fp.fingerprint.db import FingerprintDatabase
+        self.direct()
+        self.dist['second_load_of_same_file'] += 1
+        try:
+            again = FingerprintDatabase.load(fn)
+            d = G.diff_fields(onxt, G.db_obs(again))
+            shared = [a for a in ('array', 'fp_names', 'fp_names_to_indices', 'props') if getattr(again, a) is getattr(nxt, a)]
+            if again is nxt:
+                shared = ['the database object itself']
+            elif not shared and again.array.nnz and np.shares_memory(again.array.data, nxt.array.data):
+                shared = ['array.data buffer']
+            if d:
+                self.fail('%s: a second load of the same file differs from the first in %s' % (what, d), pl, key + ':second-load')
+            elif shared:
+                self.fail('%s: two loads of the same file share %s' % (what, ', '.join(shared)), pl, key + ':second-load-aliased')
+        except Exception as e:
+            self.fail('%s: a second load of the same file raised %r' % (what, e), pl, key + ':second-load')
+
+    # ------------------------------------------------------------------ one save/load step per format
+    def step_fpz(self, tag, label, base, spec, db, o0, cur, ocur, model=True):
+        """cur.savez -> archive read by NumPy alone -> load; model cases + the property on the implementation.
+        Returns (reloaded, observation) or None when the chain cannot go on."""
+        import numpy as np
+        from e3fp.fingerprint.db import FingerprintDatabase
+        ctx = self.ctx
+        r = 1.0 if self.force_reuse else ctx.rng.random()
+        keep = False
+        if r < 0.35:
+            cls, arg = 'x.fpz', self.path('db') + '.fpz'
+        elif r < 0.62:
+            cls, arg = 'x', self.path('db')
+        elif r < 0.70:
+            cls, arg = 'x.fpz.bak', self.path('db') + '.fpz.bak'
+        elif r < 0.75:
+            cls, arg = 'x.FPZ', self.path('db') + '.FPZ'
+        elif r < 0.80:
+            cls, arg = 'x.fps', self.path('db') + '.fps'
+        elif r < 0.88:
+            cls, arg = 'subdir/x.fpz', self.path('d b', sub=True) + ctx.rng.choice(['.fpz', ''])
+        else:
+            cls, arg, keep = 'reused', self.reuse_path('fpz', '.fpz'), True
+        fn = arg if arg.endswith('.fpz') else arg + '.fpz'
+        self.bump('savez_name_class', cls)
+        if fn != arg:
+            self.dist['savez_without_extension'] += 1
+        form = ctx.rng.choice(['pos', 'pos', 'kw'])
+        self.bump('call_form', 'savez/load:' + form)
+        pl0 = dict(base, step=label, file=os.path.basename(arg))
+        try:
+            if form == 'kw':
+                cur.savez(fn=arg)
+            else:
+                cur.savez(arg)
+            if not os.path.exists(fn) or (fn != arg and os.path.exists(arg)):
+                raise IOError('savez(%r) did not write exactly %r' % (os.path.basename(arg), os.path.basename(fn)))
+            if not self.unchanged('savez (%s)' % label, cur, ocur, pl0, 'fpz:operand-changed'):
+                return None
+            dobs = G.npz_obs(fn)
+            nxt = FingerprintDatabase.load(fn=fn) if form == 'kw' else FingerprintDatabase.load(fn)
+            onxt = G.db_obs(nxt)
+            if ctx.rng.random() < 0.25:
+                self.load_twice('.fpz %s' % label, fn, nxt, onxt, pl0, 'fpz')
+        except Exception as e:
+            self.fail('savez/load raised at %s: %r' % (label, e), pl0, 'fpz:exception')
+            return None
+        finally:
+            if not keep:
+                for f in (fn, arg):
+                    if os.path.exists(f):
+                        os.remove(f)
+        Lc, Ld, Ln = G.dblit(ocur), G.dictlit(dobs), G.dblit(onxt)
+        pl = dict(pl0, archive=dobs, reloaded=G.obs_json(onxt))
+        if not model:
+            pass
+        elif isinstance(cur.level, np.integer):
+            # model domain: level is a Python int (np.asanyarray(np.int32(5)) is a 0-d int32 array, the model writes int64);
+            # the archive is checked through `load` and through the field comparison
+            self.add('%s/%s/load' % (tag, label), 'result_eqb db_eqb (load %s) (Ok %s)' % (Ld, Ln), pl, 'load %s' % Ld)
+        else:
+            self.add('%s/%s/savez' % (tag, label), 'dict_eqb (savez %s) %s' % (Lc, Ld), pl, 'savez %s' % Lc)
+            self.add('%s/%s/load' % (tag, label), 'result_eqb db_eqb (load %s) (Ok %s)' % (Ld, Ln), pl, 'load %s' % Ld)
+        self.direct()
+        d = G.diff_fields(o0, onxt)
+        if d:
+            self.fail('.fpz %s: reloaded database differs from the original in %s' % (label, d), pl, 'fpz:field:' + d[0])
+        self.same_shape('.fpz %s' % label, db, nxt, pl, 'fpz:container-type')
+        try:
+            arr = nxt.array
+            if arr.nnz and (int(arr.indices.min()) < 0 or int(arr.indices.max()) >= arr.shape[1] or int(arr.indptr[-1]) != arr.nnz):
+                # structurally invalid CSR (scipy's C routines would read out of bounds and kill the interpreter)
+                self.fail('.fpz %s: the reloaded sparse array is structurally invalid (column indices %d..%d for %d columns)'
+                          % (label, int(arr.indices.min()), int(arr.indices.max()), arr.shape[1]), pl, 'fpz:invalid-csr')
+                return None
+        except Exception as e:
+            self.fail('.fpz %s: reloaded array cannot be inspected: %r' % (label, e), pl, 'fpz:eq')
+            return None
+        self.check_eq('.fpz %s' % label, db, nxt, o0, spec, pl, 'fpz:eq')
+        self.dist['fpz_cycles'] += 1
+        return nxt, onxt
+
+    def step_fps(self, tag, label, base, spec, db, o0, cur, ocur, model=True):
+        from e3fp.fingerprint.db import FingerprintDatabase
+        ctx = self.ctx
+        keep = False
+        r = 1.0 if self.force_reuse else ctx.rng.random()
+        if r < 0.88:
+            cls = ctx.rng.choice(['x', 'x.fps.bz2', 'x.fps', 'x.fps.gz', 'x.fpz.fps.bz2', 'x.pkl'])
+            arg = self.path('db', sub=ctx.rng.random() < 0.1) + cls[1:]
+        else:
+            cls, arg, keep = 'reused', self.reuse_path('fps', '.fps.bz2'), True
+        fn = arg if '.fps' in arg else arg + '.fps.bz2'
+        self.bump('save_name_class', cls)
+        form = ctx.rng.choice(['pos', 'pos', 'kw'])
+        self.bump('call_form', 'save/load:' + form)
+        pl0 = dict(base, step=label, file=os.path.basename(arg))
+        try:
+            with warnings.catch_warnings():
+                warnings.simplefilter('ignore')
+                st = G.state_obs(cur.__getstate__())
+                if form == 'kw':
+                    cur.save(fn=arg)
+                else:
+                    cur.save(arg)
+            if not os.path.exists(fn) or (fn != arg and os.path.exists(arg)):
+                raise IOError('save(%r) did not write exactly %r' % (os.path.basename(arg), os.path.basename(fn)))
+            if not self.unchanged('save (%s)' % label, cur, ocur, pl0, 'fps:operand-changed'):
+                return None
+            nxt = FingerprintDatabase.load(fn=fn) if form == 'kw' else FingerprintDatabase.load(fn)
+            onxt = G.db_obs(nxt)
+            if ctx.rng.random() < 0.25:
+                self.load_twice('.fps %s' % label, fn, nxt, onxt, pl0, 'fps')
+        except Exception as e:
+            self.fail('save/load (pickle) raised at %s: %r' % (label, e), pl0, 'fps:exception')
+            return None
+        finally:
+            if not keep:
+                for f in (fn, arg):
+                    if os.path.exists(f):
+                        os.remove(f)
+        Lc, Ls, Ln = G.dblit(ocur), G.pstatelit(st), G.dblit(onxt)
+        pl = dict(pl0, state=st, reloaded=G.obs_json(onxt))
+        if model:
+            self.add('%s/%s/getstate' % (tag, label), 'pstate_eqb (getstate %s) %s' % (Lc, Ls), pl, 'getstate %s' % Lc)
+            self.add('%s/%s/setstate' % (tag, label), 'db_eqb (setstate %s) %s' % (Ls, Ln), pl, 'setstate %s' % Ls)
+        self.direct()
+        d = G.diff_fields(o0, onxt)
+        if d:
+            self.fail('.fps %s: reloaded database differs from the original in %s' % (label, d), pl, 'fps:field:' + d[0])
+        self.same_shape('.fps %s' % label, db, nxt, pl, 'fps:container-type')
+        self.check_eq('.fps %s' % label, db, nxt, o0, spec, pl, 'fps:eq')
+        self.dist['fps_cycles'] += 1
+        return nxt, onxt
+
+    # ------------------------------------------------------------------ further ways through __getstate__/__setstate__
+    def pickle_extras(self, tag, base, spec, db, o0):
+        import copy
+        import pickle
+        from e3fp.fingerprint.db import FingerprintDatabase
+        ctx = self.ctx
+        # (a) a pickle written before property columns existed: state without 'props'
+        try:
+            st = dict(db.__getstate__())
+            st.pop('props')
+            new = FingerprintDatabase.__new__(FingerprintDatabase)
+            new.__setstate__(st)
+            sobs, on = G.state_obs(st), G.db_obs(new)
+            pl = dict(base, step='legacy-state', state=sobs, reloaded=G.obs_json(on))
+            self.add('%s/legacy/setstate' % tag, 'db_eqb (setstate %s) %s' % (G.pstatelit(sobs), G.dblit(on)), pl, 'setstate %s' % G.pstatelit(sobs))
+            self.direct()
+            d = G.diff_fields(dict(o0, props=[]), on)
+            if d:
+                self.fail('__setstate__ of a state without props: database differs from the original (props aside) in %s' % d, pl, 'fps:legacy:' + d[0])
+            self.dist['legacy_state_without_props'] += 1
+        except Exception as e:
+            self.fail('__setstate__ of a state without props raised %r' % (e,), dict(base, step='legacy-state'), 'fps:legacy:exception')
+        # (b) __setstate__ on an object that already holds another database: nothing of the old one may survive
+        if self.prev_db is not None:
+            try:
+                tgt = copy.deepcopy(self.prev_db)
+                tgt.__setstate__(db.__getstate__())
+                on = G.db_obs(tgt)
+                self.direct()
+                d = G.diff_fields(o0, on)
+                if d:
+                    self.fail('__setstate__ on a used object: fields %s keep content of the previous database' % d,
+                              dict(base, step='setstate-on-used', reloaded=G.obs_json(on)), 'fps:setstate-reuse:' + d[0])
+                self.dist['setstate_on_used_object'] += 1
+            except Exception as e:
+                self.fail('__setstate__ on a used object raised %r' % (e,), dict(base, step='setstate-on-used'), 'fps:setstate-reuse:exception')
+        # (c) every pickle protocol, and deepcopy (both go through __getstate__/__setstate__)
+        proto = ctx.rng.randrange(0, pickle.HIGHEST_PROTOCOL + 1)
+        for what, f in (('pickle protocol %d' % proto, lambda: pickle.loads(pickle.dumps(db, protocol=proto))), ('copy.deepcopy', lambda: copy.deepcopy(db))):
+            try:
+                y = f()
+                on = G.db_obs(y)
+                self.direct()
+                d = G.diff_fields(o0, on)
+                pl = dict(base, step=what, reloaded=G.obs_json(on))
+                if d:
+                    self.fail('%s: copy differs from the original in %s' % (what, d), pl, 'fps:pickle:' + d[0])
+                self.same_shape(what, db, y, pl, 'fps:container-type')
+                self.check_eq(what, db, y, o0, spec, pl, 'fps:eq')
+            except Exception as e:
+                self.fail('%s raised %r' % (what, e), dict(base, step=what), 'fps:pickle:exception')
+        self.bump('pickle_protocol', proto)
+        self.dist['deepcopy'] += 1
+
+    def default_names(self, base, db, o0):
+        """savez() / save() without a file name write fingerprints.fpz / fingerprints.fps.bz2 into the working directory."""
+        from e3fp.fingerprint.db import FingerprintDatabase
+        d = self.path('cwd')
+        os.makedirs(d)
+        old = os.getcwd()
+        try:
+            os.chdir(d)
+            with warnings.catch_warnings():
+                warnings.simplefilter('ignore')
+                db.savez()
+                db.save()
+            got = sorted(os.listdir('.'))
+            self.direct(3)
+            if got != ['fingerprints.fps.bz2', 'fingerprints.fpz']:
+                self.fail('savez()/save() without a file name wrote %s' % got, dict(base, step='default-names'), 'default-names:files')
+            else:
+                for f in got:
+                    dd = G.diff_fields(o0, G.db_obs(FingerprintDatabase.load(f)))
+                    if dd:
+                        self.fail('%s: reloaded database differs from the original in %s' % (f, dd), dict(base, step='default-names'), 'default-names:field:' + dd[0])
+        except Exception as e:
+            self.fail('savez()/save() without a file name raised %r' % (e,), dict(base, step='default-names'), 'default-names:exception')
+        finally:
+            os.chdir(old)
+            import shutil
+            shutil.rmtree(d, ignore_errors=True)
+        self.dist['default_filename'] += 1
+
+    # ------------------------------------------------------------------ text export
+    def savetxt_call(self, obj, fn, wn, form):
+        with warnings.catch_warnings():
+            warnings.simplefilter('ignore')
+            if form == 'default':
+                obj.savetxt(fn)
+            elif form == 'pos':
+                obj.savetxt(fn, wn)
+            elif form == 'kw-all':
+                obj.savetxt(fn=fn, with_names=wn)
+            else:
+                obj.savetxt(fn, with_names=wn)
+
+    def text_part(self, tag, base, spec, db, o0, L0, reloaded):
+        ctx = self.ctx
+        for wn in (True, False):
+            ext = '.txt' if self.force_reuse else ctx.rng.choice(TEXT_EXT)
+            keep = self.force_reuse or ctx.rng.random() < 0.15
+            fn = self.reuse_path('txt' + ext, ext) if keep else self.path('bits') + ext
+            form = ctx.rng.choice(['kw', 'kw', 'pos', 'kw-all'] + (['default', 'default'] if wn else []))
+            self.bump('text_call_form', form)
+            try:
+                self.savetxt_call(db, fn, wn, form)
+                r = ('ok', _read_text(fn))
+            except Exception as e:
+                r = ('err', _err_tag(e))
+                self.dist['text_expected_errors'] += 1
+            exp = '(Ok %s)' % text_lit(r[1]) if r[0] == 'ok' else '(Raises %s)' % r[1]
+            pl = dict(base, with_names=wn, call=form, file=os.path.basename(fn), content=r[1] if len(r[1]) < 3000 else r[1][:3000] + '...')
+            m = 'savetxt %s %s' % (L0, core.blit(wn))
+            # too long for a Gallina string literal: the property is then checked on the implementation alone
+            big = o0['bits'] > 2 ** 14 or o0['nrows'] * max(o0['bits'], 1) > 100000 or len(r[1]) > 150000
+            if not big:
+                self.add('%s/txt/%s' % (tag, 'names' if wn else 'plain'), 'result_eqb String.eqb (%s) %s' % (m, exp), pl, m if o0['bits'] <= 64 else 'is_ok (%s)' % m)
+            else:
+                self.dist['text_large_direct_only'] += 1
+            self.dist['text_exports'] += 1
+            self.dist['text_over_2^14_bits'] += o0['bits'] > 2 ** 14
+            self.bump('text_by_ext', ext)
+            self.unchanged('savetxt', db, o0, pl, 'txt:operand-changed')
+            canonical = spec['how'] != 'noncanon'
+            named = all(n is not None for n in o0['names'])
+            if o0['kind'] == 'KBit' and canonical and (named or not wn):
+                # the property itself, on the implementation: parse the file back
+                self.direct()
+                if r[0] != 'ok':
+                    self.fail('savetxt raised %s on a binary database with %s' % (r[1], 'all names' if wn else 'names not requested'), pl, 'txt:exception')
+                else:
+                    bad = self.parse_back(r[1], o0, wn)
+                    if bad:
+                        self.fail('text export: ' + bad, pl, 'txt:content')
+            elif big and o0['kind'] != 'KBit':
+                self.direct()
+                if r != ('err', 'EInvalidFp'):
+                    self.fail('savetxt of a non-binary database: %s instead of E3FPInvalidFingerprintError' % (r[1][:80],), pl, 'txt:exception')
+            # a reloaded database exports the same text (names come back as numpy.str_, index arrays may be rebuilt)
+            for what, y in reloaded:
+                f2 = self.path('bits2') + ext
+                try:
+                    self.savetxt_call(y, f2, wn, 'kw')
+                    r2 = ('ok', _read_text(f2))
+                except Exception as e:
+                    r2 = ('err', _err_tag(e))
+                self.direct()
+                self.dist['text_of_reloaded'] += 1
+                if r2 != r:
+                    self.fail('text export of the database reloaded from %s differs from the text export of the original' % what,
+                              dict(pl, reloaded_from=what, reloaded_content=r2[1][:3000]), 'txt:reloaded')
+                if os.path.exists(f2):
+                    os.remove(f2)
+            if os.path.exists(fn) and not keep:
+                os.remove(fn)
+
+    # ------------------------------------------------------------------ one database
+    def one_db(self, tag, spec, cycles, text, extras=None):
+        import numpy as np
         ctx = self.ctx
         sj = G.spec_json(spec)
         try:
-            db = G.build_db(spec)
+            db = C.build(spec, ctx.workdir)
             o0 = G.db_obs(db)
         except Exception as e:  # the generator only asks for databases the API accepts
             self.fail('could not build/observe the database: %r' % (e,), {'spec': sj}, 'build')
             return
         L0 = G.dblit(o0)
-        ncase0 = len(self.cases)
+        ncase0, ndirect0 = len(self.cases), self.ndirect
         base = {'spec': sj, 'original': G.obs_json(o0)}
         self.add('%s/wf' % tag, 'wfb %s' % L0, base, 'wfb %s' % L0)
+        if extras is None:
+            extras = bool(spec.get('ext')) or ctx.rng.random() < 0.35
+        reloaded = []
 
-        # ---- .fpz
-        cur, ocur = db, o0
-        for c in range(cycles):
-            with_ext = ctx.rng.random() < 0.5
-            stem = self.path('db') + ('.fpz' if with_ext else '')
-            fn = stem if with_ext else stem + '.fpz'
-            if not with_ext:
-                self.dist['savez_without_extension'] += 1
-            try:
-                cur.savez(stem)
-                if not os.path.exists(fn) or (not with_ext and os.path.exists(stem)):
-                    raise IOError('savez(%r) did not write exactly %r' % (os.path.basename(stem), os.path.basename(fn)))
-                dobs = G.npz_obs(fn)
-                nxt = FingerprintDatabase.load(fn)
-                onxt = G.db_obs(nxt)
-            except Exception as e:
-                self.fail('savez/load raised on cycle %d: %r' % (c + 1, e), dict(base, cycle=c + 1), 'fpz:exception')
-                break
-            Lc, Ld, Ln = G.dblit(ocur), G.dictlit(dobs), G.dblit(onxt)
-            pl = dict(base, cycle=c + 1, archive=dobs, reloaded=G.obs_json(onxt))
-            self.add('%s/fpz%d/savez' % (tag, c + 1), 'dict_eqb (savez %s) %s' % (Lc, Ld), pl, 'savez %s' % Lc)
-            self.add('%s/fpz%d/load' % (tag, c + 1), 'result_eqb db_eqb (load %s) (Ok %s)' % (Ld, Ln), pl, 'load %s' % Ld)
-            d = G.diff_fields(o0, onxt)
-            if d:
-                self.fail('.fpz cycle %d: reloaded database differs from the original in %s' % (c + 1, d), pl, 'fpz:field:' + d[0])
-            try:
-                arr = nxt.array
-                if arr.nnz and (int(arr.indices.min()) < 0 or int(arr.indices.max()) >= arr.shape[1] or int(arr.indptr[-1]) != arr.nnz):
-                    # structurally invalid CSR (scipy's C routines would read out of bounds and kill the interpreter)
-                    self.fail('.fpz cycle %d: the reloaded sparse array is structurally invalid (column indices %d..%d for %d columns)'
-                              % (c + 1, int(arr.indices.min()), int(arr.indices.max()), arr.shape[1]), pl, 'fpz:invalid-csr')
+        # ---- .fpz, .fps.bz2 (deprecated pickle path): 1-3 cycles each, then a chain that alternates the two formats
+        for fmt, step in (('fpz', self.step_fpz), ('fps', self.step_fps)):
+            cur, ocur = db, o0
+            for c in range(cycles):
+                r = step(tag, '%s%d' % (fmt, c + 1), base, spec, db, o0, cur, ocur)
+                if r is None:
                     break
-                # scipy subtracts non-canonical CSR operands with O(bits) scratch memory: MemoryError at 2^32 columns
-                if (spec['how'] != 'noncanon' or o0['bits'] <= 2 ** 16) and not (db == nxt and nxt == db):
-                    self.fail('.fpz cycle %d: reloaded database is not == the original' % (c + 1), pl, 'fpz:eq')
-            except Exception as e:
-                self.fail('.fpz cycle %d: == raised %r' % (c + 1, e), pl, 'fpz:eq')
-            cur, ocur = nxt, onxt
-            self.dist['fpz_cycles'] += 1
-            os.remove(fn)
-
-        # ---- .fps.bz2 (deprecated pickle path)
-        cur, ocur = db, o0
-        for c in range(cycles):
-            stem = self.path('db') + ctx.rng.choice(['', '.fps.bz2', '.fps', '.fps.gz'])
-            fn = stem if '.fps' in os.path.basename(stem) else stem + '.fps.bz2'
-            try:
-                with warnings.catch_warnings():
-                    warnings.simplefilter('ignore')
-                    st = G.state_obs(cur.__getstate__())
-                    cur.save(stem)
-                if not os.path.exists(fn):
-                    raise IOError('save(%r) did not write %r' % (os.path.basename(stem), os.path.basename(fn)))
-                nxt = FingerprintDatabase.load(fn)
-                onxt = G.db_obs(nxt)
-            except Exception as e:
-                self.fail('save/load (pickle) raised on cycle %d: %r' % (c + 1, e), dict(base, cycle=c + 1), 'fps:exception')
-                break
-            Lc, Ls, Ln = G.dblit(ocur), G.pstatelit(st), G.dblit(onxt)
-            pl = dict(base, cycle=c + 1, state=st, reloaded=G.obs_json(onxt))
-            self.add('%s/fps%d/getstate' % (tag, c + 1), 'pstate_eqb (getstate %s) %s' % (Lc, Ls), pl, 'getstate %s' % Lc)
-            self.add('%s/fps%d/setstate' % (tag, c + 1), 'db_eqb (setstate %s) %s' % (Ls, Ln), pl, 'setstate %s' % Ls)
-            d = G.diff_fields(o0, onxt)
-            if d:
-                self.fail('.fps cycle %d: reloaded database differs from the original in %s' % (c + 1, d), pl, 'fps:field:' + d[0])
-            cur, ocur = nxt, onxt
-            self.dist['fps_cycles'] += 1
-            os.remove(fn)
+                cur, ocur = r
+            if cur is not db:
+                reloaded.append(('.' + fmt, cur))
+        if extras:
+            cur, ocur = db, o0
+            fmt = ctx.rng.choice(['fpz', 'fps'])
+            for c in range(ctx.rng.choice([2, 3, 4])):
+                # (every step compared with the original on the implementation; the model comparisons are those of the cycles above)
+                r = (self.step_fpz if fmt == 'fpz' else self.step_fps)(tag, 'mix%d%s' % (c + 1, fmt), base, spec, db, o0, cur, ocur, model=False)
+                if r is None:
+                    break
+                cur, ocur = r
+                self.dist['mixed_format_chain_steps'] += 1
+                fmt = 'fps' if fmt == 'fpz' else ('fpz' if ctx.rng.random() < 0.8 else 'fps')
+            self.pickle_extras(tag, base, spec, db, o0)
+            if ctx.rng.random() < 0.06:
+                self.default_names(base, db, o0)
+            self.unchanged('the whole sequence of saves', db, o0, base, 'operand-changed')
 
         # ---- text export
         if text:
-            for wn in (True, False):
-                ext = ctx.rng.choice(TEXT_EXT)
-                fn = self.path('bits') + ext
-                try:
-                    with warnings.catch_warnings():
-                        warnings.simplefilter('ignore')
-                        db.savetxt(fn, with_names=wn)
-                    r = ('ok', _read_text(fn))
-                except Exception as e:
-                    r = ('err', _err_tag(e))
-                    self.dist['text_expected_errors'] += 1
-                exp = '(Ok %s)' % G.slit(r[1]) if r[0] == 'ok' else '(Raises %s)' % r[1]
-                pl = dict(base, with_names=wn, file=os.path.basename(fn), content=r[1] if len(r[1]) < 3000 else r[1][:3000] + '...')
-                m = 'savetxt %s %s' % (L0, core.blit(wn))
-                self.add('%s/txt/%s' % (tag, 'names' if wn else 'plain'), 'result_eqb String.eqb (%s) %s' % (m, exp), pl, m if o0['bits'] <= 64 else 'is_ok (%s)' % m)
-                self.dist['text_exports'] += 1
-                self.bump('text_by_ext', ext)
-                canonical = spec['how'] != 'noncanon'
-                named = all(n is not None for n in o0['names'])
-                if o0['kind'] == 'KBit' and canonical and (named or not wn):
-                    # the property itself, on the implementation: parse the file back
-                    if r[0] != 'ok':
-                        self.fail('savetxt raised %s on a binary database with %s' % (r[1], 'all names' if wn else 'names not requested'), pl, 'txt:exception')
-                    else:
-                        bad = self.parse_back(r[1], o0, wn)
-                        if bad:
-                            self.fail('text export: ' + bad, pl, 'txt:content')
-                if os.path.exists(fn):
-                    os.remove(fn)
+            self.text_part(tag, base, spec, db, o0, L0, reloaded)
+        self.prev_db = db
 
         # ---- bookkeeping
         names = o0['names']
@@ -194,8 +519,11 @@ class Runner(object):
         self.bump('bits', o0['bits'])
         self.bump('names_mode', spec.get('names_mode'))
         self.bump('props_columns', len(o0['props']))
+        self.bump('rows', '1' if o0['nrows'] == 1 else '2-6' if o0['nrows'] <= 6 else '7-20' if o0['nrows'] <= 20 else '>20')
         for p in spec['props']:
             self.bump('prop_dtypes', p['dtype'])
+            if 'input' in p:
+                self.bump('prop_input', p['input'] if spec['how'] != 'add_fpprops' else 'fingerprint-props')
         self.dist['tricky_prop_keys'] += sum(1 for k, _ in o0['props'] if k.startswith('_') or k in ('data', 'shape', 'indices', 'indptr', 'fp_names', 'level', 'name', 'fp_type', ''))
         self.dist['level_none'] += o0['level'] is None
         self.dist['level_negative'] += o0['level'] is not None and o0['level'] < 0
@@ -204,8 +532,22 @@ class Runner(object):
         self.dist['with_duplicate_name'] += dup
         self.dist['noncanonical_csr'] += spec['how'] == 'noncanon'
         self.dist['int64_indices'] += o0['idxw'] == 8
+        self.dist['all_rows_empty'] += len(o0['indices']) == 0
+        self.dist['control_char_names'] += any(n is not None and any(ord(ch) < 32 or ord(ch) == 127 for ch in n) for n in names)
+        self.dist['long_names'] += any(n is not None and len(n) > 64 for n in names)
+        if spec.get('ext'):
+            self.dist['extended_specs'] += 1
+            if spec.get('op'):
+                self.bump('derived_op', spec['op'])
+            if isinstance(db.level, np.integer):
+                self.bump('level_numpy_int', type(db.level).__name__)
+            if spec['how'].startswith('from_'):
+                self.bump('names_container', spec.get('names_container'))
+            self.dist['names_numpy_str'] += spec.get('names_type') == 'npstr'
+            self.dist['float_special_data'] += o0['kind'] == 'KFloat' and any(v < 0 or (v >> 52) == 0x7ff for v in o0['data'])
         nontrivial = len(o0['indices']) > 0 and (len(names) > 1 or bool(o0['props']))
-        ctx.count(json.dumps([o0[f] for f in G.FIELDS], sort_keys=True, default=str), nontrivial, n=len(self.cases) - ncase0)
+        ctx.count(json.dumps([o0[f] for f in G.FIELDS], sort_keys=True, default=str), nontrivial,
+                  n=len(self.cases) - ncase0 + self.ndirect - ndirect0)
 
     @staticmethod
     def parse_back(content, o0, wn):
@@ -284,7 +626,27 @@ def run(ctx):
         spec = G.rand_spec(rng, kind='KBit' if (text and rng.random() < 0.85) else kind, text=text)
         if text and spec['bits'] > 1024 and rng.random() < 0.6:
             spec = G.rand_spec(rng, kind='KBit', bits=rng.choice([8, 16, 64, 256]), text=True)
+        spec['text'] = text
         R.one_db('db%d' % i, spec, cycles=rng.choice([1, 1, 2, 3]), text=text)
+    # coverage extension: input classes and call sequences the generator above does not draw (props/c08_cov.py)
+    n2 = ctx.n(150, 1500)
+    hows = ['add', 'add_fpprops', 'from_csr', 'from_dense'] + ['derived:' + op for op in C.DERIVED_OPS]
+    for i in range(n2):
+        text = (i % 3 == 0)
+        kind = G.KINDS[i % 3] if i < 45 and not text else None
+        how = hows[i % len(hows)] if i < 3 * len(hows) else None     # every way of building at least three times
+        if how is None and not text and i % 10 == 7:
+            kind, how = 'KFloat', 'from_csr'                          # float matrices with negative / non-finite stored values
+        op = None
+        if how and how.startswith('derived:'):
+            how, op = 'derived', how.split(':')[1]
+        spec = None
+        for _ in range(50):
+            spec = C.ext_spec(rng, kind='KBit' if (text and rng.random() < 0.9) else kind, text=text, how=how)
+            if op is None or spec['op'] == op or (text and op == 'as_type'):
+                break
+        spec['text'] = text
+        R.one_db('xdb%d' % i, spec, cycles=rng.choice([1, 1, 2, 3]), text=text)
     witnesses(R)
     for k in R.cases[:4] + R.cases[len(R.cases) // 2:len(R.cases) // 2 + 2]:
         pl = dict(R.payloads[k[0]])
@@ -292,9 +654,12 @@ def run(ctx):
     nbad = core.compare_cases(ctx, R.cases, IMPORTS, 'C08 save/load/text', R.payloads, model_expr=R.mexpr,
                               finding_key_of=lambda k, pl: 'model:' + k.split('/', 1)[1] if '/' in k else None, shard=200)
     found_input = R.found_input or nbad > 0
-    ctx.coverage['rule'] = ('%d seeded databases x {wf, savez dict, load, getstate, setstate per cycle (1-3 cycles per format), savetxt with/without names '
-                            'for every third database}; a database is non-trivial when it has stored entries and more than one row or a property column; '
-                            'distinct by full observed value' % n)
+    ctx.coverage['rule'] = ('%d + %d seeded databases (generator dbio_gen.rand_spec + extension props/c08_cov.ext_spec: derived databases, fingerprint-borne '
+                            'property columns, NumPy-int levels, unusual names/keys/dtypes/bits/rows) x {wf, savez dict, load, getstate, setstate per cycle '
+                            '(1-3 cycles per format), a chain alternating the two formats, legacy pickle state, pickle protocol, deepcopy, savetxt with/without '
+                            'names for every third database incl. the reloaded ones}; every save is followed by a re-observation of the saved database; '
+                            'evaluations = model comparisons + direct checks on the implementation; a database is non-trivial when it has stored entries and '
+                            'more than one row or a property column; distinct by full observed value' % (n, n2))
     ctx.coverage['input_distribution'] = R.dist
     ctx.coverage['trusted_base'] = [
         'NumPy archive (np.savez_compressed / np.load(allow_pickle=True)): key->array map round-trips with dtype, shape and values - Section hypothesis npz_roundtrip of the theorems; exercised on every case',
@@ -305,7 +670,13 @@ def run(ctx):
         'names, database name: no trailing NUL character (a <U array drops it; witness load_savez_nul_refuted, replayed on the implementation on every run)',
         'property keys are str; property columns are 1-d arrays of bool/int/float/str dtype (object columns are pickled by NumPy and not generated)',
         'text export: names without line breaks (a line break in a name would split the row; none generated)',
-        'levels are Python ints within int64 or None']
+        'levels are Python ints within int64 or None; NumPy-integer levels are generated too: there the first archive is not compared with the model '
+        '(the model writes int64, NumPy keeps the scalar dtype) but the reload is, and the level is compared by value',
+        'text export above 2^14 bits (up to 2^17 are generated) or of more than 100000 characters (rows x bits) is not compared with the model: the '
+        'property is checked on the implementation alone (parse_back)',
+        '== is not consulted for a database that is not == itself (NaN among the stored values)',
+        'savetxt to an open file handle (promised by the docstring) is not exercised: smart_open 8 refuses file objects (TypeError) on the unchanged tree; '
+        'the property speaks of files by name']
     if ok and not ctx.quick:
         # independent re-check of the compiled theorems by the stand-alone checker
         rc, out = core.sh('timeout 900 coqchk -silent -o -Q theories E3FP E3FP.Properties.C08 2>&1', cwd=core.COQ, timeout=960)
@@ -328,7 +699,15 @@ def replay(ctx, path):
     core.setup_env()
     R = Runner(ctx)
     spec = G.spec_from_json(case['spec'])
-    R.one_db('replay', spec, cycles=3, text=spec['bits'] <= 2 ** 14)
+    text = spec.get('text', spec['bits'] <= 2 ** 14)
+    # some failures need a history (a path that an earlier database has written, an object that held another database):
+    # a fixed warm-up database first, then the case on the re-used paths, then the case on fresh paths of every name class
+    warm = G.rand_spec(__import__('random').Random(0), kind='KBit', bits=16, text=True)
+    R.force_reuse = True
+    R.one_db('warmup', warm, cycles=1, text=text, extras=True)
+    R.one_db('replay-reused-paths', spec, cycles=2, text=text, extras=True)
+    R.force_reuse = False
+    R.one_db('replay', spec, cycles=3, text=text, extras=True)
     core.compare_cases(ctx, R.cases, IMPORTS, 'C08 replay', R.payloads, model_expr=R.mexpr)
     for v in ctx.violations:
         print('REPRODUCED:', v['what'][:400])
